@@ -197,7 +197,11 @@ class Engine:
         term = z3.simplify(term)
         if z3.is_int_value(term):
             return term.as_long()
+        tries = 0
         while True:
+            tries += 1
+            if tries > 2100:
+                raise Unsupported("concretization of a term with more than 2100 feasible values")
             if self.cpos < len(self.cvals):
                 v = self.cvals[self.cpos][1]
             else:
